@@ -140,15 +140,309 @@ theorem met_singleIndexSelect1_ofW {α : Type} (w : WGrid α) (hw : w.WF) (i : N
   unfold MET.singleIndexSelect MET.ofW MET.ofGrid
   simp only [Nat.one_ne_zero, if_false, psums_eq, hpw, List.length_map, List.map_map]
   rw [width_at' w.widths i (by omega)]
-  congr 1
-  · simp
-  · apply List.map_congr_left
+  have hvals : ∀ row ∈ w.grid.rows,
+      pySlice row.flatten ((ps 0 w.widths).getD i 0) ((ps 0 w.widths).getD (i + 1) 0)
+        = (pick row [i]).flatten := by
     intro row hrow
-    simp only [Function.comp]
     have hrl : row.length = w.grid.numCols := hw.grid row hrow
     have h1 := row_segment row w.widths (hw.2 row hrow) i 1 (by omega)
     rw [h1, drop_take_one_toList]
     simp [pick_cons, pick_nil]
-  · simp [ps]
+  have hv : (w.grid.rows.map fun row =>
+        pySlice row.flatten ((ps 0 w.widths).getD i 0) ((ps 0 w.widths).getD (i + 1) 0))
+      = w.grid.rows.map fun row => (pick row [i]).flatten := List.map_congr_left hvals
+  simp only [Function.comp_def]
+  rw [hv]
+  simp [ps]
+
+end TFVerif
+
+namespace TFVerif
+
+open Grid
+
+/-! ### assembling `MET.select` -/
+
+theorem ofW_size {α : Type} (w : WGrid α) (dim : Nat) : (MET.ofW w).size dim = w.grid.size dim := by
+  simp [MET.size, Grid.size, MET.ofW, MET.ofGrid]
+
+/-- widths after selecting positions `ps` along `dim`. -/
+def WGrid.pickW {α : Type} (w : WGrid α) (ps : List Nat) (dim : Nat) : WGrid α :=
+  { grid := w.grid.pickDim ps dim, widths := if dim = 0 then w.widths else pick w.widths ps }
+
+theorem WGrid.select_eq {α : Type} (w : WGrid α) (ix : Index) (dim : Nat) :
+    w.select ix dim = (ix.positions (w.grid.size dim)).map fun ps => w.pickW ps dim := rfl
+
+theorem met_indexSelect_ofW {α : Type} (w : WGrid α) (hw : w.WF) (js : List Nat) (dim : Nat)
+    (hd : dim = 0 ∨ dim = 1) (hjs : ∀ p ∈ js, p < w.grid.size dim) :
+    (MET.ofW w).indexSelect js dim = MET.ofW (w.pickW js dim) := by
+  rcases hd with rfl | rfl
+  · simp only [MET.indexSelect, if_true, WGrid.pickW, Grid.pickDim]
+    exact met_rowIndexSelect_ofW w js (by simpa [Grid.size] using hjs)
+  · simp only [MET.indexSelect, Nat.one_ne_zero, if_false, WGrid.pickW, Grid.pickDim]
+    by_cases hne : js = []
+    · subst hne
+      have := met_empty_ofW w 1 (Or.inr rfl)
+      simpa [MET.colIndexSelect, Grid.pickDim, pick] using this
+    · exact met_colIndexSelect_ofW w hw js hne (by simpa [Grid.size] using hjs)
+
+theorem met_singleIndexSelect_ofW {α : Type} (w : WGrid α) (hw : w.WF) (j : Nat) (dim : Nat)
+    (hd : dim = 0 ∨ dim = 1) (hj : j < w.grid.size dim) :
+    (MET.ofW w).singleIndexSelect j dim = MET.ofW (w.pickW [j] dim) := by
+  rcases hd with rfl | rfl
+  · have h0 : (MET.ofW w).singleIndexSelect j 0 = (MET.ofW w).rowIndexSelect [j] := by
+      simp [MET.singleIndexSelect, MET.rowIndexSelect]
+    rw [h0]
+    simp only [WGrid.pickW, if_true, Grid.pickDim]
+    exact met_rowIndexSelect_ofW w [j] (by intro i hi; simp at hi; subst hi; simpa [Grid.size] using hj)
+  · simp only [WGrid.pickW, Nat.one_ne_zero, if_false, Grid.pickDim]
+    exact met_singleIndexSelect1_ofW w hw j (by simpa [Grid.size] using hj)
+
+theorem pickW_all {α : Type} (w : WGrid α) (hw : w.WF) (dim : Nat) (hd : dim = 0 ∨ dim = 1) :
+    w.pickW (List.range' 0 (w.grid.size dim)) dim = w := by
+  unfold WGrid.pickW
+  rw [pickDim_all w.grid hw.grid dim hd]
+  rcases hd with rfl | rfl
+  · simp
+  · simp only [Nat.one_ne_zero, if_false, Grid.size]
+    rw [hw.1, pick_all]
+
+theorem met_narrow_ofW {α : Type} (w : WGrid α) (hw : w.WF) (dim : Nat) (hd : dim = 0 ∨ dim = 1)
+    (s e : Nat) (he : e ≤ w.grid.size dim) :
+    (MET.ofW w).narrow dim s ((e : Int) - s) = MET.ofW (w.pickW (rangeStep s e 1) dim) := by
+  rw [rangeStep_one]
+  unfold MET.narrow
+  simp only [ofW_size]
+  by_cases h1 : s = 0 ∧ (s : Int) + ((e : Int) - s) ≥ (w.grid.size dim : Nat)
+  · simp only [h1, and_self, if_true]
+    obtain ⟨hs, hge⟩ := h1
+    subst hs
+    have : e = w.grid.size dim := by omega
+    subst this
+    simp [pickW_all w hw dim hd]
+  · simp only [h1, if_false]
+    by_cases h2 : (e : Int) - s ≤ 0
+    · simp only [h2, if_true]
+      have : e - s = 0 := by omega
+      rw [this, met_empty_ofW w dim hd]
+      rcases hd with rfl | rfl <;> simp [WGrid.pickW, pick]
+    · simp only [h2, if_false]
+      have hl : ((e : Int) - s).toNat = e - s := by omega
+      rw [hl]
+      rcases hd with rfl | rfl
+      · simp only [if_true, WGrid.pickW, Grid.pickDim]
+        have he' : e ≤ w.grid.rows.length := by simpa [Grid.size] using he
+        rw [met_rowNarrow_ofW w s (e - s) (by omega), pick_range' w.grid.rows s (e - s) (by omega)]
+      · simp only [Nat.one_ne_zero, if_false, WGrid.pickW, Grid.pickDim, List.length_range']
+        have he' : e ≤ w.grid.numCols := by simpa [Grid.size] using he
+        rw [met_colNarrow_ofW w hw s (e - s) (by omega)]
+        rw [pick_range' w.widths s (e - s) (by rw [← hw.1]; omega)]
+        congr 3
+        apply List.map_congr_left
+        intro row hrow
+        rw [pick_range' row s (e - s) (by rw [hw.grid row hrow]; omega)]
+
+/-- **Refinement of one selection (MultiEmbeddingTensor).** -/
+theorem met_select_ofW {α : Type} (w : WGrid α) (hw : w.WF) (ix : Index) (dim : Nat)
+    (hd : dim = 0 ∨ dim = 1) :
+    (MET.ofW w).select ix dim = (w.select ix dim).map MET.ofW := by
+  rw [WGrid.select_eq]
+  unfold MET.select
+  simp only [ofW_size]
+  cases ix with
+  | int i =>
+    simp only [Index.positions, Option.map_map]
+    cases h : normIndex (w.grid.size dim) i with
+    | none => rfl
+    | some j =>
+      simp only [Option.map_some, Function.comp]
+      rw [met_singleIndexSelect_ofW w hw j dim hd (normIndex_lt _ _ _ h)]
+  | list is =>
+    simp only [Index.positions]
+    cases h : normIndices (w.grid.size dim) is with
+    | none => rfl
+    | some js =>
+      simp only [Option.map_some]
+      rw [met_indexSelect_ofW w hw js dim hd (normIndices_lt _ _ _ h)]
+  | mask bs =>
+    simp only [Index.positions]
+    by_cases hb : bs.length = w.grid.size dim
+    · simp only [hb, if_true, Option.map_some]
+      rw [met_indexSelect_ofW w hw _ dim hd]
+      intro p hp
+      have := maskPositions_go_lt bs 0 p hp
+      omega
+    · simp [hb]
+  | slice a b st =>
+    have hnarrow : (MET.ofW w).narrow dim (sliceBounds (w.grid.size dim) a b).1
+          (((sliceBounds (w.grid.size dim) a b).2 : Int) - ((sliceBounds (w.grid.size dim) a b).1 : Nat))
+        = MET.ofW (w.pickW (slicePositions (w.grid.size dim) a b 1) dim) := by
+      unfold slicePositions
+      exact met_narrow_ofW w hw dim hd _ _ (clampBound_le _ _ _ (Nat.le_refl _))
+    unfold MET.slice
+    simp only [ofW_size]
+    cases st with
+    | none =>
+      simp only [Index.positions, Option.map_some]
+      rw [← hnarrow]
+    | some k =>
+      simp only [Index.positions]
+      by_cases hk : k ≤ 0
+      · simp [hk]
+      · simp only [hk, if_false, Option.map_some]
+        by_cases hk1 : k > 1
+        · simp only [hk1, if_true]
+          rw [met_indexSelect_ofW w hw _ dim hd (slicePositions_lt _ _ _ _)]
+        · simp only [hk1, if_false]
+          have : k.toNat = 1 := by omega
+          rw [this, ← hnarrow]
+
+theorem pickW_WF {α : Type} (w : WGrid α) (hw : w.WF) (ps : List Nat) (dim : Nat)
+    (hd : dim = 0 ∨ dim = 1) (hps : ∀ p ∈ ps, p < w.grid.size dim) : (w.pickW ps dim).WF := by
+  rcases hd with rfl | rfl
+  · refine ⟨by simpa [WGrid.pickW, Grid.pickDim] using hw.1, ?_⟩
+    intro row hrow
+    simp only [WGrid.pickW, Grid.pickDim, if_true, pick, List.mem_flatMap, Option.mem_toList] at hrow ⊢
+    obtain ⟨p, _, hp⟩ := hrow
+    exact hw.2 row (List.mem_of_getElem? hp)
+  · have hps' : ∀ p ∈ ps, p < w.widths.length := by
+      intro p hp; rw [← hw.1]; simpa [Grid.size] using hps p hp
+    refine ⟨?_, ?_⟩
+    · simp [WGrid.pickW, Grid.pickDim, pick_length w.widths ps hps']
+    · intro row hrow
+      simp only [WGrid.pickW, Grid.pickDim, Nat.one_ne_zero, if_false, List.mem_map] at hrow ⊢
+      obtain ⟨r, hr, rfl⟩ := hrow
+      rw [← pick_map, hw.2 r hr]
+
+theorem met_select_WF {α : Type} (w w' : WGrid α) (hw : w.WF) (ix : Index) (dim : Nat)
+    (hd : dim = 0 ∨ dim = 1) (h : w.select ix dim = some w') : w'.WF := by
+  rw [WGrid.select_eq] at h
+  simp only [Option.map_eq_some_iff] at h
+  obtain ⟨ps, hps, rfl⟩ := h
+  exact pickW_WF w hw ps dim hd (positions_lt _ _ _ hps)
+
+def MET.run {α : Type} (m : MET α) : List (Index × Nat) → Option (MET α)
+  | [] => some m
+  | (ix, d) :: rest => (m.select ix d).bind fun m' => MET.run m' rest
+
+def WGrid.run {α : Type} (w : WGrid α) : List (Index × Nat) → Option (WGrid α)
+  | [] => some w
+  | (ix, d) :: rest => (w.select ix d).bind fun w' => WGrid.run w' rest
+
+theorem met_run_ofW {α : Type} (w : WGrid α) (hw : w.WF) (prog : List (Index × Nat))
+    (hd : ∀ p ∈ prog, p.2 = 0 ∨ p.2 = 1) :
+    (MET.ofW w).run prog = (w.run prog).map MET.ofW := by
+  induction prog generalizing w with
+  | nil => rfl
+  | cons p rest ih =>
+    obtain ⟨ix, d⟩ := p
+    have hdd := hd (ix, d) (by simp)
+    simp only [MET.run, WGrid.run]
+    rw [met_select_ofW w hw ix d hdd]
+    cases h : w.select ix d with
+    | none => rfl
+    | some w' =>
+      simp only [Option.map_some, Option.bind_some]
+      exact ih w' (met_select_WF w w' hw ix d hdd h) (fun p hp => hd p (by simp [hp]))
+
+theorem met_run_WF {α : Type} (w w' : WGrid α) (hw : w.WF) (prog : List (Index × Nat))
+    (hd : ∀ p ∈ prog, p.2 = 0 ∨ p.2 = 1) (h : w.run prog = some w') : w'.WF := by
+  induction prog generalizing w with
+  | nil => simp [WGrid.run] at h; subst h; exact hw
+  | cons p rest ih =>
+    obtain ⟨ix, d⟩ := p
+    have hdd := hd (ix, d) (by simp)
+    simp only [WGrid.run] at h
+    cases h1 : w.select ix d with
+    | none => simp [h1] at h
+    | some w1 =>
+      simp only [h1, Option.bind_some] at h
+      exact ih w1 (met_select_WF w w1 hw ix d hdd h1) (fun p hp => hd p (by simp [hp])) h
+
+end TFVerif
+
+namespace TFVerif
+
+open Grid
+
+theorem met_grid_ofW {α : Type} (w : WGrid α) (hw : w.WF) : (MET.ofW w).grid = w.grid := by
+  unfold MET.grid
+  have hR : (MET.ofW w).numRows = w.grid.rows.length := rfl
+  have hC : (MET.ofW w).numCols = w.grid.numCols := rfl
+  have hV : (MET.ofW w).values = w.grid.rows.map List.flatten := rfl
+  have hO : (MET.ofW w).offset = ps 0 w.widths := by simp [MET.ofW, MET.ofGrid, psums_eq]
+  simp only [hR, hC, hV, hO]
+  have hrows : ((List.range w.grid.rows.length).map fun r => (List.range w.grid.numCols).map fun c =>
+      pySlice ((w.grid.rows.map List.flatten).getD r []) ((ps 0 w.widths).getD c 0)
+        ((ps 0 w.widths).getD (c + 1) 0)) = w.grid.rows := by
+    have : ∀ r ∈ List.range w.grid.rows.length,
+        ((List.range w.grid.numCols).map fun c =>
+          pySlice ((w.grid.rows.map List.flatten).getD r []) ((ps 0 w.widths).getD c 0)
+            ((ps 0 w.widths).getD (c + 1) 0)) = w.grid.rows.getD r [] := by
+      intro r hr
+      have hr' : r < w.grid.rows.length := by simpa using hr
+      have hmem := getD_mem_or w.grid.rows r [] hr'
+      have hrl : (w.grid.rows.getD r []).length = w.grid.numCols := hw.grid _ hmem
+      have hfl : (w.grid.rows.map List.flatten).getD r [] = (w.grid.rows.getD r []).flatten := by
+        simp [List.getD_eq_getElem?_getD, hr']
+      rw [hfl]
+      have : ∀ c ∈ List.range w.grid.numCols,
+          pySlice (w.grid.rows.getD r []).flatten ((ps 0 w.widths).getD c 0) ((ps 0 w.widths).getD (c + 1) 0)
+            = (w.grid.rows.getD r []).getD c [] := by
+        intro c hc
+        have hc' : c < w.grid.numCols := by simpa using hc
+        rw [row_segment _ w.widths (hw.2 _ hmem) c 1 (by omega),
+          drop_take_one _ c [] (by omega)]
+        simp
+      rw [List.map_congr_left this]
+      have := range_map_getD (w.grid.rows.getD r []) [] (fun x => x)
+      rw [hrl] at this
+      simpa using this
+    rw [List.map_congr_left this]
+    simpa using range_map_getD w.grid.rows [] (fun x => x)
+  rw [hrows]
+
+theorem met_getValue_ofW {α : Type} (w : WGrid α) (hw : w.WF) (i j : Int) :
+    (MET.ofW w).getValue i j =
+      (normIndex w.grid.rows.length i).bind fun i' => (normIndex w.grid.numCols j).map fun j' =>
+        (w.grid.rows.getD i' []).getD j' [] := by
+  unfold MET.getValue
+  have hR : (MET.ofW w).numRows = w.grid.rows.length := rfl
+  have hC : (MET.ofW w).numCols = w.grid.numCols := rfl
+  have hV : (MET.ofW w).values = w.grid.rows.map List.flatten := rfl
+  have hO : (MET.ofW w).offset = ps 0 w.widths := by simp [MET.ofW, MET.ofGrid, psums_eq]
+  simp only [hR, hC, hV, hO, Option.bind_eq_bind, Option.pure_def]
+  cases h1 : normIndex w.grid.rows.length i with
+  | none => rfl
+  | some i' =>
+    cases h2 : normIndex w.grid.numCols j with
+    | none => rfl
+    | some j' =>
+      simp only [Option.bind_some, Option.map_some]
+      have hi := normIndex_lt _ _ _ h1
+      have hj := normIndex_lt _ _ _ h2
+      have hmem := getD_mem_or w.grid.rows i' [] hi
+      have hrl : (w.grid.rows.getD i' []).length = w.grid.numCols := hw.grid _ hmem
+      have hfl : (w.grid.rows.map List.flatten).getD i' [] = (w.grid.rows.getD i' []).flatten := by
+        simp [List.getD_eq_getElem?_getD, hi]
+      rw [hfl, row_segment _ w.widths (hw.2 _ hmem) j' 1 (by omega), drop_take_one _ j' [] (by omega)]
+      simp
+
+/-- the representation invariant of a `MultiEmbeddingTensor`. -/
+def MET.WFRep {α : Type} (m : MET α) : Prop :=
+  m.offset.length = m.numCols + 1 ∧ m.offset.head? = some 0 ∧ m.offset.getLast? = some m.width ∧
+  m.values.length = m.numRows ∧ ∀ row ∈ m.values, row.length = m.width
+
+theorem met_wfrep_ofW {α : Type} (w : WGrid α) (hw : w.WF) : (MET.ofW w).WFRep := by
+  have hO : (MET.ofW w).offset = ps 0 w.widths := by simp [MET.ofW, MET.ofGrid, psums_eq]
+  refine ⟨?_, ?_, ?_, ?_, ?_⟩
+  · rw [hO]; simp [MET.ofW, MET.ofGrid, hw.1]
+  · rw [hO]; exact ps_head? 0 _
+  · rw [hO, ps_getLast?]; simp [MET.ofW, MET.ofGrid]
+  · simp [MET.ofW, MET.ofGrid]
+  · intro row hrow
+    simp only [MET.ofW, MET.ofGrid, List.mem_map] at hrow
+    obtain ⟨r, hr, rfl⟩ := hrow
+    simp only [MET.ofW, MET.ofGrid, List.length_flatten, hw.2 r hr]
 
 end TFVerif
